@@ -230,6 +230,12 @@ func buildWorld(r *rng.R, small bool) *world {
 	o2.Fields["tl"] = &graphql.FieldDefinition{Type: graphql.IntType}
 	o1.Fields["to"] = &graphql.FieldDefinition{Type: o2}
 	o2.Fields["to"] = &graphql.FieldDefinition{Type: o1}
+	// composite twins that differ in a wrapper only (for leaves the final same-type test hides
+	// what the unwrapping loop of validateSameResponseShape does)
+	o1.Fields["tol"] = &graphql.FieldDefinition{Type: li(o2)}
+	o2.Fields["tol"] = &graphql.FieldDefinition{Type: o1}
+	o1.Fields["ton"] = &graphql.FieldDefinition{Type: nn(o2)}
+	o2.Fields["ton"] = &graphql.FieldDefinition{Type: o1}
 	o1.Fields["ta"] = &graphql.FieldDefinition{Type: graphql.IntType, Arguments: args("x", graphql.IntType)}
 	o2.Fields["ta"] = &graphql.FieldDefinition{Type: graphql.IntType, Arguments: args("x", graphql.IntType)}
 
